@@ -1,29 +1,41 @@
 (* C20 proofs: exec = step; the invariant; the three guarantees at state level and at trace level. *)
 From MJ Require Import Common.Base C20.Model C20.Spec.
 
+Ltac simp := cbn [flag reqs cached ph nlk creator_calls clears notifies with_ph with_flag with_nlk with_cached
+                  count_request count_notify count_creator count_clear lab obs ev gen born] in *.
+
 (* ------------------------------------------------------------------------------------------ *)
 (* exec is the step relation                                                                    *)
 (* ------------------------------------------------------------------------------------------ *)
+Lemma nfree_true s : nfree s = true -> nlk s = NFree.
+Proof. unfold nfree; destruct (nlk s); congruence. Qed.
+
 Ltac brk H :=
   repeat match type of H with
-  | context [if negb (?a =? ?b) then _ else _] =>
-      destruct (Z.eqb_spec a b); cbn [negb] in H; [subst | discriminate]
   | context [match ?x with _ => _ end] => destruct x eqn:?; try discriminate
+  end.
+Ltac norm :=
+  repeat match goal with
+  | H : negb _ = false |- _ => apply negb_false_iff in H
+  | H : _ && _ = true |- _ => apply andb_prop in H; destruct H
+  | H : (_ =? _) = true |- _ => apply Z.eqb_eq in H; subst
+  | H : (_ =? _) = false |- _ => apply Z.eqb_neq in H
+  | H : nfree _ = true |- _ => apply nfree_true in H
   end.
 
 Lemma exec_to_step c s e s' : exec c s (lab e) = Some (s', obs e) -> step c s e s'.
 Proof.
   destruct e as [l o]; cbn [lab obs]. intros H.
-  destruct l; cbn [exec] in H; brk H; inversion H; subst; clear H;
+  destruct l; cbn [exec] in H; brk H; inversion H; subst; clear H; norm;
     try solve [econstructor; eauto].
-  match goal with E : flag s = false |- _ => rewrite <- E at 1 end. econstructor; eauto.
 Qed.
 
 Lemma step_to_exec c s e s' : step c s e s' -> exec c s (lab e) = Some (s', obs e).
 Proof.
-  intros H; destruct H; cbn [lab obs exec];
+  intros H; destruct H; cbn [lab obs ev exec]; unfold nfree;
     repeat match goal with H : _ = _ |- _ => rewrite H end;
-    rewrite ?Z.eqb_refl; cbn [negb]; reflexivity.
+    rewrite ?Z.eqb_refl; cbn [negb andb]; try reflexivity.
+  destruct (Z.eqb_spec h t); [congruence | reflexivity].
 Qed.
 
 Lemma exec_step_iff c s e s' : exec c s (lab e) = Some (s', obs e) <-> step c s e s'.
@@ -88,50 +100,69 @@ Definition Inv (s : st) : Prop :=
 Lemma inv_init : Inv init.
 Proof. unfold Inv, quiescent_ok; cbn. split; intros; discriminate. Qed.
 
-Lemma inv_step c s e s' : restore c = true -> Inv s -> step c s e s' -> Inv s'.
+(* the flag is clear and nobody can set it while a thread is inside the freshness callback
+   (the notifier mutex is held): needed to hand out the cached environment when the callback says "fresh" *)
+Definition Inv2 (s : st) : Prop :=
+  match nlk s with
+  | NFresh t | NOnCb t true => flag s = false /\ exists r0, ph s = Locked t r0
+  | _ => True
+  end.
+
+Lemma inv2_init : Inv2 init.
+Proof. exact I. Qed.
+
+Lemma inv2_step c s e s' : Inv2 s -> step c s e s' -> Inv2 s'.
 Proof.
-  intros Hfix [Hle Hq] Hs.
-  destruct Hs; unfold Inv, quiescent_ok in *;
-    cbn [flag reqs cached ph set_ph set_flag gen born] in *;
-    repeat match goal with H : ph _ = _ |- _ => rewrite H in *; clear H end.
+  intros Hi Hs; destruct Hs; unfold Inv2 in *; simp;
+    repeat match goal with H : nlk _ = _ |- _ => rewrite H in *; clear H end; simp;
+    try exact I.
+  all: try (destruct (nlk s) as [|?|? []]; try exact I; destruct Hi as (Hf & r & Hp); try congruence).
+  all: try (split; [assumption | eauto]).
+Qed.
+
+Lemma inv_step c s e s' : restore c = true -> Inv s -> Inv2 s -> step c s e s' -> Inv s'.
+Proof.
+  intros Hfix [Hle Hq] Hi2 Hs.
+  destruct Hs; unfold Inv, quiescent_ok in *; simp;
+    repeat match goal with H : ph _ = _ |- _ => rewrite H in *; clear H end;
+    try solve [split; assumption]; try solve [split; [assumption | lia]]; try solve [split; [assumption | tauto]];
+    try congruence.
   - (* request: flag set *)
     split; [intros e He; specialize (Hle e He); lia|].
     destruct (ph s);
       repeat match goal with H : _ /\ _ |- _ => destruct H | H : exists _, _ |- _ => destruct H end;
       repeat split; try lia; try (intros; discriminate); eauto.
-  - (* request: notify *) split; [assumption|]. destruct (ph s); assumption.
-  - (* lock, cache empty *) split; [assumption | lia].
   - (* lock, cache full *) split; [assumption|]. repeat split; try assumption; try lia. congruence.
-  - (* flag seen *) split; [assumption|]. tauto.
   - (* keep *) split; [assumption|]. destruct Hq as (Hq & Hr & Hc). repeat split; try assumption.
-    exists e; split; [assumption|]. rewrite (Hq H0 e H2). assumption.
-  - (* freshness callback: fresh *) split; [assumption|]. destruct Hq as (Hq & Hr & Hc). repeat split; try assumption.
-    exists e; split; [assumption|]. rewrite (Hq H0 e H2). assumption.
-  - (* freshness callback: stale *) split; [assumption|]. tauto.
-  - (* flag reset, cache empty *) split; [assumption | assumption].
+    match goal with Hf : flag s = false, Hc : cached s = Some ?e |- _ =>
+      exists e; split; [assumption|]; rewrite (Hq Hf e Hc); assumption end.
+  - (* freshness callback says fresh: the flag is still clear, the mutex was held all the time *)
+    split; [assumption|]. destruct Hq as (Hq & Hr & Hc).
+    unfold Inv2 in Hi2. match goal with Hn : nlk s = NFresh _ |- _ => rewrite Hn in Hi2 end. destruct Hi2 as (Hf & _).
+    repeat split; try assumption.
+    match goal with Hc : cached s = Some ?e |- _ => exists e; split; [assumption|]; rewrite (Hq Hf e Hc); assumption end.
   - (* flag reset, cache full *) split; [assumption|]. split; [assumption | congruence].
   - (* fast reload: clear *) destruct Hq as (Hr & Hc).
     split; [intros e' He'; inversion He'; subst; cbn; lia|].
     repeat split; try assumption.
     + intros _ e' He'; inversion He'; subst; reflexivity.
     + eexists; split; [reflexivity | cbn; assumption].
-  - (* fast reload off *) split; [assumption | tauto].
-  - (* creator starts *) split; [assumption|]. repeat split; try lia.
   - (* creator ok *) destruct Hq as (Hb & Hf & Hr).
     split; [intros e' He'; inversion He'; subst; cbn; lia|].
     repeat split; try lia.
     + intros Hfl e' He'; inversion He'; subst; cbn. auto.
     + eexists; split; [reflexivity | cbn; assumption].
-  - (* creator failed, fixed code *) split; [assumption | lia].
-  - (* creator failed, code before the fix *) congruence.
-  - (* flag restored *) split; [assumption | intros; discriminate].
-  - (* drop *) split; [assumption | tauto].
 Qed.
 
-Lemma inv_run c : restore c = true -> forall tr s s', Inv s -> run c s tr s' -> Inv s'.
+Definition Invs (s : st) : Prop := Inv s /\ Inv2 s.
+Lemma invs_init : Invs init.
+Proof. split; [exact inv_init | exact inv2_init]. Qed.
+Lemma invs_step c s e s' : restore c = true -> Invs s -> step c s e s' -> Invs s'.
+Proof. intros Hfix [H1 H2] Hs. split; [eapply inv_step; eassumption | eapply inv2_step; eassumption]. Qed.
+Lemma invs_run c : restore c = true -> forall tr s s', Invs s -> run c s tr s' -> Invs s'.
 Proof.
   intros Hfix tr; induction tr as [|e tr IH]; intros s s' Hi Hr; inversion Hr; subst; [assumption|].
-  eapply IH; [eapply inv_step; eassumption | eassumption].
+  eapply IH; [eapply invs_step; eassumption | eassumption].
 Qed.
 
 (* ------------------------------------------------------------------------------------------ *)
@@ -146,21 +177,20 @@ Lemma owner_none p : owner_r0 p = None -> p = Idle.
 Proof. destruct p; cbn; congruence. Qed.
 
 Definition is_cache (l : label) : bool := match l with LAcqCache _ => true | _ => false end.
-Definition is_drop (l : label) : bool := match l with LDrop _ => true | _ => false end.
 Definition is_set (e : event) : bool := match lab e with LReqSet _ => true | _ => false end.
 Definition count_sets (tr : list event) : Z := lenZ (filter is_set tr).
 
 (* state level: the environment handed out is at least as new as every request completed when
    this acquire took the cache mutex *)
 Lemma handed_out_fresh c s e s' t r0 :
-  restore c = true -> Inv s -> step c s e s' -> ph s' = Holding t r0 ->
+  restore c = true -> Invs s -> step c s e s' -> ph s' = Holding t r0 ->
   exists en, cached s' = Some en /\ r0 <= born en.
 Proof.
-  intros Hfix Hi Hs Hp. pose proof (inv_step _ _ _ _ Hfix Hi Hs) as [_ Hq]. rewrite Hp in Hq. tauto.
+  intros Hfix Hi Hs Hp. pose proof (invs_step _ _ _ _ Hfix Hi Hs) as [[_ Hq] _]. rewrite Hp in Hq. tauto.
 Qed.
 
 Lemma reqs_step c s e s' : step c s e s' -> reqs s' = reqs s + (if is_set e then 1 else 0).
-Proof. intros H; destruct H; unfold is_set; cbn; lia. Qed.
+Proof. intros H; destruct H; unfold is_set; simp; lia. Qed.
 
 Lemma reqs_run c : forall tr s s', run c s tr s' -> reqs s' = reqs s + count_sets tr.
 Proof.
@@ -173,8 +203,8 @@ Qed.
 Lemma keep_owner c s e s' : step c s e s' -> is_cache (lab e) = false ->
   owner_r0 (ph s') = owner_r0 (ph s) \/ ph s' = Idle.
 Proof.
-  intros H Hc; destruct H; cbn [lab is_cache] in Hc; try discriminate;
-    cbn [ph set_ph set_flag]; try rewrite H; cbn [owner_r0]; auto.
+  intros H Hc; destruct H; simp; cbn [is_cache] in Hc; try discriminate;
+    repeat match goal with H : ph _ = _ |- _ => rewrite H end; cbn [owner_r0]; auto.
 Qed.
 
 Lemma keep_owner_run c : forall tr s s', run c s tr s' -> forallb (fun e => negb (is_cache (lab e))) tr = true ->
@@ -190,13 +220,13 @@ Qed.
 Lemma hand_out c s e s' en : step c s e s' -> obs e = REnv en -> is_drop (lab e) = false ->
   exists r0, ph s' = Holding (tid_of (lab e)) r0 /\ cached s' = Some en.
 Proof.
-  intros H Ho Hd; destruct H; cbn [lab obs is_drop] in *; try discriminate; inversion Ho; subst;
-    cbn [ph cached set_ph tid_of]; eauto.
+  intros H Ho Hd; destruct H; simp; cbn [is_drop] in *; try discriminate; inversion Ho; subst;
+    cbn [tid_of]; eauto.
 Qed.
 
 Lemma no_lost_request_proof c tr1 t tr2 e en s :
   restore c = true ->
-  run c init (tr1 ++ {| lab := LAcqCache t; obs := RNone |} :: tr2 ++ [e]) s ->
+  run c init (tr1 ++ ev (LAcqCache t) RNone :: tr2 ++ [e]) s ->
   forallb (fun x => negb (is_cache (lab x))) (tr2 ++ [e]) = true ->
   is_drop (lab e) = false -> obs e = REnv en ->
   tid_of (lab e) = t /\ count_sets tr1 <= born en.
@@ -205,21 +235,21 @@ Proof.
   apply run_app in Hrun as (s1 & R1 & Hrun). inversion Hrun as [|? ? s2 ? ? Hlock Hrest]; subst.
   pose proof (reqs_run _ _ _ _ R1) as Hreq. cbn in Hreq.
   assert (Ho2 : owner_r0 (ph s2) = Some (t, count_sets tr1)).
-  { inversion Hlock; subst; cbn [ph set_ph owner_r0]; rewrite Hreq; reflexivity. }
+  { inversion Hlock; subst; simp; cbn [owner_r0]; rewrite Hreq; reflexivity. }
   pose proof (keep_owner_run _ _ _ _ Hrest Hnc) as Hown.
-  assert (Hinv_end : Inv s).
-  { eapply inv_run; [exact Hfix | | exact Hrest]. eapply inv_step; [exact Hfix | | exact Hlock].
-    eapply inv_run; [exact Hfix | exact inv_init | exact R1]. }
+  assert (Hinv_end : Invs s).
+  { eapply invs_run; [exact Hfix | | exact Hrest]. eapply invs_step; [exact Hfix | | exact Hlock].
+    eapply invs_run; [exact Hfix | exact invs_init | exact R1]. }
   apply run_app in Hrest as (s3 & R2 & Rlast). inversion Rlast as [|? ? s4 ? ? Hstep Hnil]; subst. inversion Hnil; subst.
   destruct (hand_out _ _ _ _ _ Hstep Hobs Hnd) as (r0 & Hph & Hc).
   rewrite Hph, Ho2 in Hown. cbn [owner_r0] in Hown. destruct Hown as [E|E]; [|discriminate].
   inversion E; subst. split; [reflexivity|].
-  destruct Hinv_end as [_ Hq]. rewrite Hph in Hq. destruct Hq as (_ & _ & en' & Hc' & Hb).
+  destruct Hinv_end as [[_ Hq] _]. rewrite Hph in Hq. destruct Hq as (_ & _ & en' & Hc' & Hb).
   rewrite Hc in Hc'. inversion Hc'; subst. assumption.
 Qed.
 
 (* trace checker of Spec.v: every run of the model passes it *)
-Definition nlR (s : st) (x : nl) : Prop :=
+Definition nlR (s : st) (x : Spec.nl) : Prop :=
   nset x = reqs s /\ retmax x <= nset x /\
   (forall t i, lookup t (pend x) = Some i -> i <= nset x) /\
   (forall t r0, owner_r0 (ph s) = Some (t, r0) -> exists r, lookup t (need x) = Some r /\ r <= r0).
@@ -227,56 +257,53 @@ Definition nlR (s : st) (x : nl) : Prop :=
 Lemma nlR_init : nlR init nl_init.
 Proof. unfold nlR; cbn. repeat split; try lia; intros; discriminate. Qed.
 
-Lemma nl_sim c s e s' x : restore c = true -> Inv s -> nlR s x -> step c s e s' ->
+Lemma nl_sim c s e s' x : restore c = true -> Invs s -> nlR s x -> step c s e s' ->
   exists x', nl_step x e = Some x' /\ nlR s' x'.
 Proof.
   intros Hfix Hi (Hn & Hm & Hp & Ho) Hs.
-  pose proof (inv_step _ _ _ _ Hfix Hi Hs) as [_ Hi'].
-  destruct Hs; unfold nl_step; cbn [lab obs tid_of];
+  pose proof (invs_step _ _ _ _ Hfix Hi Hs) as [[_ Hi'] _].
+  destruct Hs; unfold nl_step, nl_lab; simp; cbn [tid_of is_drop];
     try (match goal with H : ph s = _ |- _ => rewrite H in Ho; cbn [owner_r0] in Ho end).
-  - (* set *) eexists; split; [reflexivity|]. unfold nlR; cbn [nset pend retmax need reqs ph].
+  all: try congruence.
+  all: try solve [exists x; split; [reflexivity|]; unfold nlR; simp;
+                  repeat match goal with H : ph _ = _ |- _ => rewrite H end; cbn [owner_r0];
+                  repeat split; try assumption; try (intros; discriminate)].
+  - (* set *) eexists; split; [reflexivity|]. unfold nlR; simp; cbn [nset pend retmax need].
     repeat split; try lia; [|assumption].
     intros t' i; cbn [lookup]. destruct (t =? t'); [intros E; inversion E; lia | intros E; apply Hp in E; lia].
-  - (* notify *) eexists; split; [reflexivity|]. unfold nlR; cbn [nset pend retmax need reqs ph].
+  - (* request returns *) eexists; split; [reflexivity|]. unfold nlR; simp; cbn [nset pend retmax need].
     repeat split; try assumption.
     destruct (lookup t (pend x)) eqn:L; [apply Hp in L; lia | assumption].
-  - (* lock empty *) eexists; split; [reflexivity|]. unfold nlR; cbn [nset pend retmax need reqs ph set_ph owner_r0].
+  - (* request returns from the callback *) eexists; split; [reflexivity|]. unfold nlR; simp; cbn [nset pend retmax need].
+    repeat split; try assumption.
+    destruct (lookup t (pend x)) eqn:L; [apply Hp in L; lia | assumption].
+  - (* lock empty *) eexists; split; [reflexivity|]. unfold nlR; simp; cbn [nset pend retmax need owner_r0].
     repeat split; try assumption. intros t' r0 E; inversion E; subst. exists (retmax x). cbn [lookup]. rewrite Z.eqb_refl. split; [reflexivity | lia].
-  - (* lock some *) eexists; split; [reflexivity|]. unfold nlR; cbn [nset pend retmax need reqs ph set_ph owner_r0].
+  - (* lock some *) eexists; split; [reflexivity|]. unfold nlR; simp; cbn [nset pend retmax need owner_r0].
     repeat split; try assumption. intros t' r0 E; inversion E; subst. exists (retmax x). cbn [lookup]. rewrite Z.eqb_refl. split; [reflexivity | lia].
-  - exists x; split; [reflexivity|]. unfold nlR; cbn [reqs ph set_ph owner_r0]. auto.
   - (* keep *) destruct (Ho t r0 eq_refl) as (r & Hl & Hr). rewrite Hl.
-    cbn [ph set_ph cached] in Hi'. destruct Hi' as (_ & _ & e' & Hc & Hb). rewrite H2 in Hc; inversion Hc; subst e'.
-    replace (r <=? born e) with true by lia. exists x; split; [reflexivity|]. unfold nlR; cbn [reqs ph set_ph owner_r0]. auto.
-  - (* fresh no *) destruct (Ho t r0 eq_refl) as (r & Hl & Hr). rewrite Hl.
-    cbn [ph set_ph cached] in Hi'. destruct Hi' as (_ & _ & e' & Hc & Hb). rewrite H2 in Hc; inversion Hc; subst e'.
-    replace (r <=? born e) with true by lia. exists x; split; [reflexivity|]. unfold nlR; cbn [reqs ph set_ph owner_r0]. auto.
-  - exists x; split; [reflexivity|]. unfold nlR; cbn [reqs ph owner_r0]. auto.
-  - exists x; split; [reflexivity|]. unfold nlR; cbn [reqs ph set_flag owner_r0]. auto.
-  - exists x; split; [reflexivity|]. unfold nlR; cbn [reqs ph set_flag owner_r0]. auto.
+    destruct Hi' as (_ & _ & e' & Hc & Hb). match goal with Hx : cached s = Some e |- _ => rewrite Hx in Hc end. inversion Hc; subst e'.
+    replace (r <=? born e) with true by lia. exists x; split; [reflexivity|]. unfold nlR; simp; cbn [owner_r0]. auto.
+  - (* callback says fresh *) destruct (Ho t r0 eq_refl) as (r & Hl & Hr). rewrite Hl.
+    destruct Hi' as (_ & _ & e' & Hc & Hb). match goal with Hx : cached s = Some e |- _ => rewrite Hx in Hc end. inversion Hc; subst e'.
+    replace (r <=? born e) with true by lia. exists x; split; [reflexivity|]. unfold nlR; simp; cbn [owner_r0]. auto.
   - (* fast clear *) destruct (Ho t r0 eq_refl) as (r & Hl & Hr). rewrite Hl.
-    cbn [ph cached] in Hi'. destruct Hi' as (_ & _ & e' & Hc & Hb). inversion Hc; subst e'. cbn [born] in *.
-    replace (r <=? reqs s) with true by lia. exists x; split; [reflexivity|]. unfold nlR; cbn [reqs ph owner_r0]. auto.
-  - exists x; split; [reflexivity|]. unfold nlR; cbn [reqs ph set_ph owner_r0]. auto.
-  - exists x; split; [reflexivity|]. unfold nlR; cbn [reqs ph owner_r0]. auto.
+    destruct Hi' as (_ & _ & e' & Hc & Hb). inversion Hc; subst e'. cbn [born] in *.
+    replace (r <=? reqs s) with true by lia. exists x; split; [reflexivity|]. unfold nlR; simp; cbn [owner_r0]. auto.
   - (* creator ok *) destruct (Ho t r0 eq_refl) as (r & Hl & Hr). rewrite Hl.
-    cbn [ph cached] in Hi'. destruct Hi' as (_ & _ & e' & Hc & Hb'). inversion Hc; subst e'. cbn [born] in *.
-    replace (r <=? b) with true by lia. exists x; split; [reflexivity|]. unfold nlR; cbn [reqs ph owner_r0]. auto.
-  - exists x; split; [reflexivity|]. unfold nlR; cbn [reqs ph set_ph owner_r0]. auto.
-  - congruence.
-  - exists x; split; [reflexivity|]. unfold nlR; cbn [reqs ph set_flag owner_r0]. repeat split; try assumption. intros; discriminate.
-  - exists x; split; [reflexivity|]. unfold nlR; cbn [reqs ph set_ph owner_r0]. repeat split; try assumption. intros; discriminate.
+    destruct Hi' as (_ & _ & e' & Hc & Hb'). inversion Hc; subst e'. cbn [born] in *.
+    replace (r <=? b) with true by lia. exists x; split; [reflexivity|]. unfold nlR; simp; cbn [owner_r0]. auto.
 Qed.
 
-Lemma nl_sound c : restore c = true -> forall tr s s' x, Inv s -> nlR s x -> run c s tr s' -> nl_check x tr = true.
+Lemma nl_sound c : restore c = true -> forall tr s s' x, Invs s -> nlR s x -> run c s tr s' -> nl_check x tr = true.
 Proof.
   intros Hfix tr; induction tr as [|e tr IH]; intros s s' x Hi Hr Hrun; [reflexivity|].
   inversion Hrun as [|? ? s1 ? ? H3 H5]; subst. destruct (nl_sim _ _ _ _ _ Hfix Hi Hr H3) as (x' & E & Hr').
-  cbn [nl_check]. rewrite E. eapply IH; [eapply inv_step; eassumption | eassumption | eassumption].
+  cbn [nl_check]. rewrite E. eapply IH; [eapply invs_step; eassumption | eassumption | eassumption].
 Qed.
 
 Lemma no_lost_trace_proof c tr s : restore c = true -> run c init tr s -> no_lost_ok tr = true.
-Proof. intros Hfix H. eapply nl_sound; [exact Hfix | exact inv_init | exact nlR_init | exact H]. Qed.
+Proof. intros Hfix H. eapply nl_sound; [exact Hfix | exact invs_init | exact nlR_init | exact H]. Qed.
 
 (* ------------------------------------------------------------------------------------------ *)
 (* guard excludes                                                                               *)
@@ -285,7 +312,7 @@ Lemma guard_excludes_proof c s e s' t r0 : step c s e s' -> ph s = Holding t r0 
   cached s' = cached s /\ creator_calls s' = creator_calls s /\ clears s' = clears s /\
   (ph s' = Holding t r0 \/ (lab e = LDrop t /\ ph s' = Idle)).
 Proof.
-  intros H Hp; destruct H; cbn [cached creator_calls clears ph set_ph set_flag lab]; try congruence; auto.
+  intros H Hp; destruct H; simp; try congruence; auto 10.
   rewrite Hp in H. inversion H; subst. auto 10.
 Qed.
 
@@ -299,13 +326,13 @@ Lemma g_sim c s e s' h : gR s h -> step c s e s' -> exists h', g_step h e = Some
 Proof.
   intros Hg Hs. destruct h as [[ht hen]|]; cbn [gR] in Hg.
   - destruct Hg as ((hr & Hp) & Hc).
-    destruct Hs; unfold g_step; cbn [lab obs tid_of]; try congruence;
-      try (eexists; split; [reflexivity|]; cbn [gR ph cached]; split; [eexists; eassumption | assumption]).
+    destruct Hs; unfold g_step; simp; cbn [tid_of]; try congruence;
+      try (eexists; split; [reflexivity|]; cbn [gR]; simp; split; [eexists; eassumption | assumption]).
     rewrite Hp in H; inversion H; subst. rewrite Hc in H0; inversion H0; subst.
     rewrite Z.eqb_refl. replace (env_eqb e e) with true by (symmetry; apply env_eqb_eq; reflexivity).
-    eexists; split; [reflexivity|]. cbn [gR ph set_ph]. intros; discriminate.
-  - destruct Hs; unfold g_step; cbn [lab obs tid_of];
-      try (eexists; split; [reflexivity|]; cbn [gR ph cached set_ph set_flag]);
+    eexists; split; [reflexivity|]. cbn [gR]; simp. intros; discriminate.
+  - destruct Hs; unfold g_step; simp; cbn [tid_of];
+      try (eexists; split; [reflexivity|]; cbn [gR]; simp);
       try solve [assumption | intros; discriminate | intros ? ?; rewrite H; discriminate
                 | split; [eexists; reflexivity | assumption]
                 | split; [eexists; reflexivity | reflexivity]].
@@ -323,13 +350,37 @@ Lemma guard_trace_proof c tr s : run c init tr s -> guard_ok tr = true.
 Proof. intros H. eapply g_sound; [|exact H]. cbn. intros; discriminate. Qed.
 
 (* ------------------------------------------------------------------------------------------ *)
+(* the notifier mutex: callbacks are atomic for the notifier state                              *)
+(* ------------------------------------------------------------------------------------------ *)
+Lemma notifier_excludes_proof c s e s' h : step c s e s' -> nlk_holder (nlk s) = Some h ->
+  (flag s' = flag s /\ reqs s' = reqs s /\ nlk s' = nlk s) \/
+  (flag s' = flag s /\ reqs s' = reqs s /\ tid_of (lab e) = h /\
+   (lab e = LOnCbEnd h \/ exists a, lab e = LFreshEnd h a)).
+Proof.
+  intros H Hh; destruct H; simp;
+    repeat match goal with H : nlk _ = _ |- _ => rewrite H in Hh; clear H end;
+    cbn [nlk_holder] in Hh; try discriminate; try (inversion Hh; subst); cbn [tid_of];
+    try solve [left; repeat split; reflexivity]; right; repeat split; eauto.
+Qed.
+
+(* a request that is not blocked takes effect *)
+Lemma request_takes_effect_proof c s e s' t : step c s e s' -> lab e = LReqSet t ->
+  nlk s = NFree /\ flag s' = true /\ reqs s' = reqs s + 1.
+Proof. intros H Hl; destruct H; simp; try discriminate. auto. Qed.
+
+(* a blocked attempt changes nothing, and only happens while another thread is inside a callback *)
+Lemma blocked_is_stutter_proof c s e s' t : step c s e s' -> lab e = LBlocked t ->
+  s' = s /\ exists h, nlk_holder (nlk s) = Some h /\ h <> t.
+Proof. intros H Hl; destruct H; simp; try discriminate. inversion Hl; subst. eauto. Qed.
+
+(* ------------------------------------------------------------------------------------------ *)
 (* no spurious rebuild                                                                          *)
 (* ------------------------------------------------------------------------------------------ *)
 Lemma no_spurious_rebuild_proof c s e s' :
   step c s e s' -> creator_calls s' <> creator_calls s \/ clears s' <> clears s ->
   exists t r0 w, ph s = PreCreate t r0 w \/ ph s = Cleared t r0 w.
 Proof.
-  intros H Hd; destruct H; cbn [creator_calls clears set_ph set_flag] in Hd; try (exfalso; lia); eauto.
+  intros H Hd; destruct H; simp; try (exfalso; lia); eauto.
 Qed.
 
 (* the reason recorded when an acquire decides to reload is true at that moment *)
@@ -338,11 +389,18 @@ Lemma decided_justified_proof c s e s' t r0 w :
   match w with
   | WhyEmpty => cached s = None
   | WhyFlag => flag s = true
-  | WhyFresh => lab e = LAcqCheck t (Some true)
+  | WhyFresh => lab e = LFreshEnd t true \/ (lab e = LOnCbEnd t /\ nlk s = NOnCb t true)
   end.
 Proof.
-  intros H Hp Hn; destruct H; cbn [ph set_ph set_flag lab] in *; try congruence;
-    try (inversion Hp; subst; assumption); try (inversion Hp; subst; reflexivity).
+  intros H Hp Hn; destruct H; simp; try congruence;
+    try (inversion Hp; subst; assumption); try (inversion Hp; subst; auto).
+Qed.
+
+(* the on-should-reload callback is only entered from should_reload after the freshness callback said "stale" *)
+Lemma oncb_from_check_justified_proof c s e s' t :
+  step c s e s' -> nlk s' = NOnCb t true -> nlk s <> NOnCb t true -> lab e = LFreshEnd t true.
+Proof.
+  intros H Hp Hn; destruct H; simp; try congruence; try (inversion Hp; subst; reflexivity).
 Qed.
 
 (* a reload is only ever started from a decision *)
@@ -350,7 +408,7 @@ Lemma precreate_from_decision c s e s' t r0 w :
   step c s e s' -> (ph s' = PreCreate t r0 w \/ ph s' = Cleared t r0 w) ->
   ph s = PreCreate t r0 w \/ ph s = Cleared t r0 w \/ ph s = Decided t r0 w.
 Proof.
-  intros H Hp; destruct H; cbn [ph set_ph set_flag] in *; destruct Hp as [Hp|Hp]; try congruence;
+  intros H Hp; destruct H; simp; destruct Hp as [Hp|Hp]; try congruence;
     try (inversion Hp; subst; tauto); tauto.
 Qed.
 
@@ -359,32 +417,37 @@ Definition spR (s : st) (x : sp) : Prop :=
   match ph s with
   | Decided _ _ _ | Cleared _ _ _ | PreCreate _ _ _ => just x = true
   | _ => True
-  end.
+  end /\
+  match nlk s with NOnCb _ true => just x = true | _ => True end.
 
-Lemma sp_sim c s e s' x : spR s x -> step c s e s' -> exists x', sp_step x e = Some x' /\ spR s' x'.
+Lemma sp_sim c s e s' x : Inv2 s -> spR s x -> step c s e s' -> exists x', sp_step x e = Some x' /\ spR s' x'.
 Proof.
-  intros (Hp & Hh & Hj) Hs.
-  destruct Hs; unfold sp_step; cbn [lab obs];
+  intros Hi2 (Hp & Hh & Hj & Hk) Hs. unfold Inv2 in Hi2.
+  destruct Hs; unfold sp_step; simp;
+    try (match goal with H : nlk s = _ |- _ => rewrite H in Hk, Hi2 end);
     try (match goal with H : ph s = _ |- _ => rewrite H in Hj end);
-    try rewrite Hj;
+    try rewrite Hj; try rewrite Hk;
     (eexists; split; [reflexivity|]);
-    unfold spR; cbn [pending have_env just flag cached ph set_ph set_flag];
+    unfold spR; simp; cbn [pending have_env just];
     repeat match goal with H : cached s = _ |- _ => rewrite H in * end;
+    repeat match goal with H : ph s = _ |- _ => rewrite H in * end;
+    repeat match goal with H : nlk s = _ |- _ => rewrite H in * end;
     try rewrite Hh; try rewrite Hp;
     repeat match goal with H : flag s = _ |- _ => rewrite H in * end;
     rewrite ?orb_true_r, ?orb_false_r; cbn [negb orb];
     try solve [repeat split; auto | destruct (ph s); repeat split; auto].
+  all: destruct (nlk s) as [|?|? []]; repeat split; auto; destruct Hi2 as (_ & ? & Hc); discriminate.
 Qed.
 
-Lemma sp_sound c : forall tr s s' x, spR s x -> run c s tr s' -> sp_check x tr = true.
+Lemma sp_sound c : forall tr s s' x, Inv2 s -> spR s x -> run c s tr s' -> sp_check x tr = true.
 Proof.
-  induction tr as [|e tr IH]; intros s s' x Hg Hrun; [reflexivity|].
-  inversion Hrun as [|? ? s1 ? ? H3 H5]; subst. destruct (sp_sim _ _ _ _ _ Hg H3) as (x' & E & Hg').
-  cbn [sp_check]. rewrite E. eapply IH; eassumption.
+  induction tr as [|e tr IH]; intros s s' x Hi Hg Hrun; [reflexivity|].
+  inversion Hrun as [|? ? s1 ? ? H3 H5]; subst. destruct (sp_sim _ _ _ _ _ Hi Hg H3) as (x' & E & Hg').
+  cbn [sp_check]. rewrite E. eapply IH; [eapply inv2_step; eassumption | eassumption | eassumption].
 Qed.
 
 Lemma no_spurious_trace_proof c tr s : run c init tr s -> no_spurious_ok tr = true.
-Proof. intros H. eapply sp_sound; [|exact H]. unfold spR; cbn. auto. Qed.
+Proof. intros H. eapply sp_sound; [exact inv2_init | | exact H]. unfold spR; cbn. auto. Qed.
 
 Lemma spec_holds_proof c tr s : restore c = true -> run c init tr s -> spec_ok tr = true.
 Proof.
@@ -395,19 +458,19 @@ Qed.
 (* ------------------------------------------------------------------------------------------ *)
 (* concrete traces                                                                              *)
 (* ------------------------------------------------------------------------------------------ *)
-Definition ev (l : label) (o : ret) : event := {| lab := l; obs := o |}.
 Definition mk_env (g b : Z) : ret := REnv {| gen := g; born := b |}.
 
 Definition cfg_fixed : cfg := {| fast := false; fresh_cb := false; on_cb := false; restore := true |}.
 Definition cfg_before_fix : cfg := {| fast := false; fresh_cb := false; on_cb := false; restore := false |}.
+Definition cfg_fresh : cfg := {| fast := false; fresh_cb := true; on_cb := false; restore := true |}.
 
 (* one thread: acquire; request_reload; acquire whose creator fails; acquire *)
 Definition lost_trace : list event :=
   [ ev (LAcqCache 0) RNone; ev (LAcqMark 0) RNone; ev (LCreStart 0) RNone; ev (LCreEnd 0 true) (mk_env 1 0); ev (LDrop 0) (mk_env 1 0);
-    ev (LReqSet 0) RNone; ev (LReqNotify 0) RNone;
-    ev (LAcqCache 0) RNone; ev (LAcqCheck 0 None) RNone; ev (LAcqMark 0) RNone; ev (LAcqFast 0) RNone;
+    ev (LReqSet 0) RNone; ev (LReqNotify 0 false) RReq;
+    ev (LAcqCache 0) RNone; ev (LAcqCheck 0) RNone; ev (LAcqMark 0) RNone; ev (LAcqFast 0) RNone;
     ev (LCreStart 0) RNone; ev (LCreEnd 0 false) RErr;
-    ev (LAcqCache 0) RNone; ev (LAcqCheck 0 None) (mk_env 1 0) ].
+    ev (LAcqCache 0) RNone; ev (LAcqCheck 0) (mk_env 1 0) ].
 
 Lemma lost_request_refuted_before_fix_proof :
   exists tr s, run cfg_before_fix init tr s /\ no_lost_ok tr = false /\
@@ -422,10 +485,10 @@ Qed.
 (* the same schedule on the fixed code: the failed acquire restores the flag, the next one rebuilds *)
 Definition retry_trace : list event :=
   [ ev (LAcqCache 0) RNone; ev (LAcqMark 0) RNone; ev (LCreStart 0) RNone; ev (LCreEnd 0 true) (mk_env 1 0); ev (LDrop 0) (mk_env 1 0);
-    ev (LReqSet 0) RNone; ev (LReqNotify 0) RNone;
-    ev (LAcqCache 0) RNone; ev (LAcqCheck 0 None) RNone; ev (LAcqMark 0) RNone; ev (LAcqFast 0) RNone;
+    ev (LReqSet 0) RNone; ev (LReqNotify 0 false) RReq;
+    ev (LAcqCache 0) RNone; ev (LAcqCheck 0) RNone; ev (LAcqMark 0) RNone; ev (LAcqFast 0) RNone;
     ev (LCreStart 0) RNone; ev (LCreEnd 0 false) RNone; ev (LAcqRestore 0) RErr;
-    ev (LAcqCache 0) RNone; ev (LAcqCheck 0 None) RNone; ev (LAcqMark 0) RNone; ev (LAcqFast 0) RNone;
+    ev (LAcqCache 0) RNone; ev (LAcqCheck 0) RNone; ev (LAcqMark 0) RNone; ev (LAcqFast 0) RNone;
     ev (LCreStart 0) RNone; ev (LCreEnd 0 true) (mk_env 3 1) ].
 
 Lemma retry_after_failure_proof : exists s, run cfg_fixed init retry_trace s /\ cached s = Some {| gen := 3; born := 1 |}.
@@ -438,10 +501,10 @@ Qed.
    acquire starts after the request returned and gets an environment born after it *)
 Definition during_tr1 : list event :=
   [ ev (LAcqCache 1) RNone; ev (LAcqMark 1) RNone; ev (LCreStart 1) RNone;
-    ev (LReqSet 0) RNone; ev (LReqNotify 0) RNone;
+    ev (LReqSet 0) RNone; ev (LReqNotify 0 false) RReq;
     ev (LCreEnd 1 true) (mk_env 1 0); ev (LDrop 1) (mk_env 1 0) ].
 Definition during_tr2 : list event :=
-  [ ev (LAcqCheck 2 None) RNone; ev (LAcqMark 2) RNone; ev (LAcqFast 2) RNone; ev (LCreStart 2) RNone ].
+  [ ev (LAcqCheck 2) RNone; ev (LAcqMark 2) RNone; ev (LAcqFast 2) RNone; ev (LCreStart 2) RNone ].
 Definition during_last : event := ev (LCreEnd 2 true) (mk_env 2 1).
 
 Lemma request_during_creator_proof :
@@ -451,4 +514,44 @@ Proof.
   destruct (replay cfg_fixed init 0 (during_tr1 ++ ev (LAcqCache 2) RNone :: during_tr2 ++ [during_last])) as [s|p] eqn:E;
     [|vm_compute in E; discriminate].
   exists s. split; [eapply replay_run; exact E|]. split; reflexivity.
+Qed.
+
+(* a request issued while thread 1 polls a (slow) freshness callback: the requester sleeps on the
+   notifier mutex, its request takes effect as soon as the callback has returned, and the next
+   acquire rebuilds *)
+Definition poll_tr1 : list event :=
+  [ ev (LAcqCache 1) RNone; ev (LAcqMark 1) RNone; ev (LCreStart 1) RNone; ev (LCreEnd 1 true) (mk_env 1 0); ev (LDrop 1) (mk_env 1 0);
+    ev (LAcqCache 1) RNone; ev (LAcqCheck 1) RNone;          (* thread 1 is inside the freshness callback *)
+    ev (LBlocked 0) RNone;                                     (* thread 0: request_reload, sleeps on the mutex *)
+    ev (LFreshEnd 1 false) (mk_env 1 0);                       (* "fresh": thread 1 gets the cached environment (concurrent: fine) *)
+    ev (LReqSet 0) RNone; ev (LReqNotify 0 false) RReq;        (* now the request takes effect and returns *)
+    ev (LDrop 1) (mk_env 1 0) ].
+Definition poll_tr2 : list event :=
+  [ ev (LAcqCheck 2) RNone; ev (LAcqMark 2) RNone; ev (LAcqFast 2) RNone; ev (LCreStart 2) RNone ].
+Definition poll_last : event := ev (LCreEnd 2 true) (mk_env 2 1).
+
+Lemma request_during_freshness_poll_proof :
+  exists s, run cfg_fresh init (poll_tr1 ++ ev (LAcqCache 2) RNone :: poll_tr2 ++ [poll_last]) s /\
+            count_sets poll_tr1 = 1 /\ obs poll_last = mk_env 2 1.
+Proof.
+  destruct (replay cfg_fresh init 0 (poll_tr1 ++ ev (LAcqCache 2) RNone :: poll_tr2 ++ [poll_last])) as [s|p] eqn:E;
+    [|vm_compute in E; discriminate].
+  exists s. split; [eapply replay_run; exact E|]. split; reflexivity.
+Qed.
+
+(* the same schedule with a request_reload that does not wait for the mutex but returns at once
+   (try_lock): event 7 is not a step of the model, and the trace violates no_lost_request *)
+Definition skip_trace : list event :=
+  [ ev (LAcqCache 1) RNone; ev (LAcqMark 1) RNone; ev (LCreStart 1) RNone; ev (LCreEnd 1 true) (mk_env 1 0); ev (LDrop 1) (mk_env 1 0);
+    ev (LAcqCache 1) RNone; ev (LAcqCheck 1) RNone;
+    ev (LReqSet 0) RReq;                                       (* request_reload returned although the mutex was held *)
+    ev (LFreshEnd 1 false) (mk_env 1 0); ev (LDrop 1) (mk_env 1 0);
+    ev (LAcqCache 2) RNone; ev (LAcqCheck 2) RNone; ev (LFreshEnd 2 false) (mk_env 1 0) ].
+
+Lemma nonblocking_request_rejected_proof :
+  replay cfg_fresh init 0 skip_trace = inr (7, RNone) /\ no_lost_ok skip_trace = false /\
+  (forall s, ~ run cfg_fresh init skip_trace s).
+Proof.
+  split; [vm_compute; reflexivity|]. split; [vm_compute; reflexivity|].
+  intros s H. apply (run_replay _ _ _ 0) in H. vm_compute in H. discriminate.
 Qed.
